@@ -145,7 +145,8 @@ def su2_to_angle(np0:np.ndarray, zero_eps:float=1e-7):
         a*aH-b*bH, #x22
     ]
     alpha,beta,gamma = _so3_to_angle_hf0(*tmp0, zero_eps)
-    tmp1 = (np.exp(0.5j*(alpha+gamma)) * a).real < 0
+    # overlap of (a,b) with the first row rebuilt from the angles: negative for -U (a alone vanishes at beta=pi)
+    tmp1 = (np.exp(0.5j*(alpha+gamma))*np.cos(beta/2)*a - np.exp(0.5j*(alpha-gamma))*np.sin(beta/2)*b).real < 0
     gamma = gamma + tmp1*(2*np.pi)
     if len(shape)==0:
         ret = alpha[0],beta[0],gamma[0]
